@@ -839,6 +839,38 @@ def weighted_obligations(pid, tier, seed):
                                            'c_weight_palette': h_weighted.WPAL, 'c_value_palette': h_weighted.VPAL}}
 
 
+# ---------------------------------------------------------------------------
+# C11: multiunion
+
+MULTI_QUICK = ['II', 'UU', 'LL', 'QQ']
+MULTI_ALL = ['II', 'UU', 'LL', 'QQ', 'IO', 'IF', 'IU', 'UO', 'UF', 'UI', 'LO', 'LF', 'LQ', 'QO', 'QF', 'QL']
+
+
+def multi_obligations(pid, tier, seed):
+    from harness import h_multi, h_repr
+    obs = []
+    quick = tier == 'quick'
+    t = 200 if quick else 1500
+    for fam in MULTI_QUICK:
+        lo, hi = h_repr.RANGES[h_multi.FMT[fam[0]]]
+        for nops in (1, 2):
+            for n in ((1, 2, 3) if quick else (1, 2, 3, 4)):
+                if quick and nops == 2 and n > 2:
+                    continue
+                args = [('x%d' % i, 'int') for i in range(n)] + [('k%d' % i, 'int') for i in range(nops)] + [('cut', 'int')]
+                pre = ['%d <= x%d <= %d' % (lo, i, hi) for i in range(n)] + ['0 <= k%d < 6' % i for i in range(nops)] + ['0 <= cut <= %d' % n]
+                obs.append(dict(id='%s/py/%s/ops%d/n%d' % (pid, fam, nops, n), mod='h_multi', fn='py_multi', nk=0, args=args, pre=pre,
+                                params=dict(family=fam, n=n, nops=nops), timeout=t))
+    for fam in (MULTI_QUICK if quick else MULTI_ALL):
+        for impl in ('c', 'py'):
+            obs.append(dict(id='%s/%s/%s/sizes' % (pid, impl, fam), mod='h_multi', fn='c_multi', nk=0,
+                            args=[('size', 'int'), ('layout', 'int'), ('spread', 'int'), ('nb', 'int'), ('dup', 'bool')],
+                            pre=['0 <= size < 7' if impl == 'c' else '0 <= size < 4', '0 <= layout < 5', '0 <= spread < 4', '0 <= nb < 4'],
+                            params=dict(family=fam, impl=impl), timeout=t * 2))
+    return {'obligations': obs, 'bounds': {'python_symbolic_keys': '<= 3 (quick) / 4 integers anywhere in the family range',
+                                           'c_sizes': [0, 3, 40, 799, 801, 900, 2000], 'families': MULTI_QUICK if quick else MULTI_ALL}}
+
+
 COMMON_ASSUME = [
     'key objects are observed by the containers only through rich comparison, identity and None-ness '
     '(true for the object-key templates; native-key families are covered by their own obligations where stated)',
@@ -1132,5 +1164,20 @@ PROPS = {
                    'copyRemaining)', 'BTrees._base: weightedUnion, weightedIntersection, _set_operation, MERGE/MERGE_WEIGHT of _datatypes'],
         assumptions=['no intermediate result leaves the 64-bit value range (overflow is outside the documented formula)',
                      'compiled code: values and weights are concrete palette entries chosen by the solver'],
+    ),
+    'C11': dict(
+        families=MULTI_QUICK,
+        families_thorough=MULTI_ALL,
+        gen=lambda tier, seed: multi_obligations('C11', tier, seed),
+        explanation='(1) Pure-Python multiunion: up to 3 (4) symbolic integers ranging over the WHOLE family range (both extremes are '
+                    'models), split between one or two operands of solver-chosen kinds (integers, Set, TreeSet, Bucket, BTree, list); '
+                    'the real _base.multiunion / update code runs on the symbols (struct replaced by the calibrated stub); result must '
+                    'be the sorted duplicate-free union, every member found, range query exact. (2) Compiled multiunion (and the '
+                    'Python one on the smaller sizes): total size on both sides of the 800-element switch, spacing of the bulk keys '
+                    '(which bytes vary, hence which radix passes run), the boundary keys mixed in (extremes, top-bit keys of the '
+                    'unsigned families, byte boundaries), duplicates and the operand layout are solver-chosen selectors.',
+        functions=['_XXBTree.so: multiunion_m, bucket_append, sort_int_nodups, radixsort_int, quicksort, uniq', 'BTrees._base.multiunion, Set.update'],
+        stubs=['struct.Struct(fmt).pack contract stub for the Python side'],
+        assumptions=['compiled code: keys are concrete (unboxed in C); the selectors enumerate sizes / spacings / boundary mixes'],
     ),
 }
